@@ -539,7 +539,9 @@ func propC10(c *Ctx) {
 	// the malformed classes the property names, at every nesting position
 	for _, bad := range []string{"{{#if}}}x{{/if}}", "{{{#unless}}x{{/unless}}", "{{#unless}}}x{{/unless}}", "{{^if}}}x{{/if}}", "{{{^unless}}x{{/unless}}", "{{#if}}x{{/if}}}", "{{{#if a}}x{{/if}}",
 		"{{#if a}}x{{/if b}}", "{{#a}}x{{/if b}}", "{{^a}}x{{/unless b}}", "{{#unless a}}x{{/unless b}}", "{{#a}}{{#b}}x{{/if a}}{{/if b}}",
-		"{{a", "{{#a}}x", "x{{/a}}", "{{#a}}x{{/b}}", "{{a}}}", "{{{a}}", "{{#a}}{{#b}}x{{/a}}{{/b}}", "{{^a}}", "{{#if a}}x{{/unless}}{{/if}}", "{{/}}", "{{}}", "{{# }}x{{/}}", "{{a b}}", "{{!c"} {
+		"{{a", "{{#a}}x", "x{{/a}}", "{{#a}}x{{/b}}", "{{a}}}", "{{{a}}", "{{#a}}{{#b}}x{{/a}}{{/b}}", "{{^a}}", "{{#if a}}x{{/unless}}{{/if}}", "{{/}}", "{{}}", "{{# }}x{{/}}", "{{a b}}", "{{!c",
+		// the section keywords are lower-case words: any other spelling is an ordinary name
+		"{{#a}}x{{/IF}}", "{{#a}}x{{/Unless}}", "{{^a}}x{{/UNLESS}}", "{{#IF a}}x{{/IF}}", "{{#If a}}x{{/a}}", "{{#Unless a}}x{{/a}}", "{{^UNLESS a}}x{{/a}}", "{{#a}}x{{/If a}}", "{{#a}}x{{/iF}}", "{{#ıf a}}x{{/a}}"} {
 		o := runTemplate(bad, map[string]string{"a": "1", "b": "1"})
 		op := "tpl " + strRunes(bad)
 		c.record(op, true)
